@@ -426,8 +426,12 @@ class SimCuda:
                     real = arr.real
                 else:
                     real = arr
-                old = real[idx]
-                real[idx] += val
+                try:
+                    old = real[idx]
+                    real[idx] += val
+                except IndexError:
+                    outer.res.violate('M2-out-of-bounds', f'kernel {outer.mon.desc(outer.mon.cur)}: atomic.add on index {idx} of an array of shape {real.shape}')
+                    raise core.AbortRun(outer.res, 'atomic.add out of bounds')
                 outer.res.count('atomic_adds')
                 return old
         self.atomic = _Atomic
